@@ -199,18 +199,8 @@ int vh_case(uint64_t id, int tier)
         if(rc != OK || !m){
                 vh_fail("sem:kind.read-failed", "input could not be read");
         }else if(m->biotype != want){
-                /* name the cause so that the finding is tied to it */
-                double w_shared = 1.2040, w_u = 11.2048, w_p = 10.2727, w_o = 0.2763;
-                double score = w_shared * c.v.s + w_u * c.v.u - w_p * c.v.p - w_o * c.v.o;     /* > 0: nucleotide, on residues alone */
-                const char* sig;
-                int residues_alone = score > 0 ? ALN_BIOTYPE_DNA : ALN_BIOTYPE_PROTEIN;
-                if(residues_alone == want && c.nonres > 0){
-                        sig = "sem:kind.nonresidue-characters-vote";
-                }else if(want == ALN_BIOTYPE_PROTEIN && c.v.u > 0 && (score - w_u * c.v.u) <= 0){
-                        sig = "sem:kind.u-rich-protein";
-                }else{
-                        sig = "sem:kind.wrong";
-                }
+                const char* sig = want == ALN_BIOTYPE_DNA ? (c.nonres ? "sem:kind.nucleotide-premise-with-nonresidue-characters" : "sem:kind.nucleotide-premise")
+                                                           : (c.v.u ? "sem:kind.protein-premise-with-U" : "sem:kind.protein-premise");
                 vh_fail(sig, "detected as %s, premise says %s", m->biotype == ALN_BIOTYPE_DNA ? "nucleotide" : (m->biotype == ALN_BIOTYPE_PROTEIN ? "protein" : "undefined"),
                         want == ALN_BIOTYPE_DNA ? "nucleotide" : "protein");
         }else{
